@@ -187,7 +187,7 @@ struct ForeachCtx {
     std::set<std::string> visited;
     std::vector<std::string> deleted;
     size_t calls = 0;
-    bool stopped = false;
+    bool stopped = false, may_stop = false;
 };
 static int foreach_cb(void *vctx, struct aws_hash_element *e) {
     ForeachCtx &f = *(ForeachCtx *)vctx;
@@ -217,7 +217,7 @@ static int foreach_cb(void *vctx, struct aws_hash_element *e) {
     case 0: return AWS_COMMON_HASH_TABLE_ITER_CONTINUE;
     case 1: f.deleted.push_back(cn); return AWS_COMMON_HASH_TABLE_ITER_CONTINUE | AWS_COMMON_HASH_TABLE_ITER_DELETE;
     case 2: f.stopped = true; return 0;
-    default: f.stopped = true; f.deleted.push_back(cn); return AWS_COMMON_HASH_TABLE_ITER_DELETE;
+    default: f.may_stop = true; f.deleted.push_back(cn); return AWS_COMMON_HASH_TABLE_ITER_DELETE; // deletes; may or may not go on
     }
 }
 
@@ -322,6 +322,8 @@ static void run(const Case &c, Ctx &ctx) {
         uint64_t ha = hash_fn(a->kp);
         PBT_CHECK(hash_fn(a->kp) == ha, "%s: hash of the same key object differs between two calls", KIND_NAME[kind]);
         if (kind != K_PTR) PBT_CHECK(eq(a->kp, a->kp), "%s: equality is not reflexive", KIND_NAME[kind]);
+        if (kind == K_U64) // hash_table.h: "it merely reflects the uint64 value back"
+            PBT_CHECK(ha == a->num, "aws_hash_uint64_t_by_identity(%" PRIu64 ") = %" PRIu64, a->num, ha);
         if (string_like && kind != K_CURSOR_IC) {
             // header: aws_hash_string / aws_hash_byte_cursor_ptr hash the bytes as aws_hash_c_string does
             uint64_t hc = aws_hash_c_string(a->at), hb = aws_hash_byte_cursor_ptr(&a->cur);
@@ -545,7 +547,7 @@ static void run(const Case &c, Ctx &ctx) {
             if (ctx.failed) throw Failure{ctx.msg};
             PBT_CHECK(rc == AWS_OP_SUCCESS, "foreach returned an error");
             for (auto &d : f.deleted) model.erase(d);
-            if (!f.stopped) PBT_CHECK(f.visited.size() == f.start.size(), "foreach: full walk visited %zu of %zu entries", f.visited.size(), f.start.size());
+            if (!f.stopped && !f.may_stop) PBT_CHECK(f.visited.size() == f.start.size(), "foreach: full walk visited %zu of %zu entries", f.visited.size(), f.start.size());
             if (!f.deleted.empty()) ctx.tag("foreach_with_delete");
             break;
         }
